@@ -30,8 +30,8 @@ def frames():
 
 
 # K, LV and SC are objects of the caller's context: a list of knots, a list of levels and an array (they must never be written to)
-FORMULA = "scale(x) + A + B + A:B + poly(w, 2) + C(B, contr.sum):x + A:D:E + B:D:E:A + bs(w, knots=K, extrapolation='clip') + C(D, levels=LV) + I(x * SC[0]) + center(`a b`) + scale(`a b`)"
-UFORMULA = "center(x) + B + A + bs(w, df=3) + D:B:E + E:D:A:B + cr(x, knots=K, extrapolation='clip') + C(E, contr.treatment(base=LV2[1]), levels=LV2) + scale(`a b`) + poly(`a b`, 2) + I(`a b` + x)"
+FORMULA = "scale(x) + A + B + A:B + poly(w, 2) + C(B, contr.sum):x + A:D:E + B:D:E:A + bs(w, knots=K, extrapolation='clip') + C(D, levels=LV) + I(x * SC[0]) + center(`a b`) + scale(`a b`) + lag(ZZ[:len(x)])"
+UFORMULA = "center(x) + B + A + bs(w, df=3) + D:B:E + E:D:A:B + cr(x, knots=K, extrapolation='clip') + C(E, contr.treatment(base=LV2[1]), levels=LV2) + scale(`a b`) + poly(`a b`, 2) + I(`a b` + x) + lag(ZZ[:len(x)], 2):lag(ZZ[1:len(x) + 1])"
 
 
 def fp_frame(df) -> str:
@@ -77,7 +77,8 @@ class Session:
         import numpy
 
         self.d1, self.d2 = frames()
-        self.ctx = {"K": [1.5, 2.5], "LV": ["i", "h", "g"], "LV2": ["n", "m"], "SC": numpy.array([2.0, 3.0])}
+        self.ctx = {"K": [1.5, 2.5], "LV": ["i", "h", "g"], "LV2": ["n", "m"], "SC": numpy.array([2.0, 3.0]),
+                    "ZZ": numpy.array([1.0, 4.0, 9.0, 16.0, 25.0, 36.0])}
         self.f = Formula(FORMULA)
         self.u = ModelSpec.from_spec(UFORMULA)
         self.spec1 = None
